@@ -23,10 +23,19 @@ type c20Mon struct {
 	timersAt0  int
 	postAt     time.Duration
 	posted     bool
+	execTakesTime bool
+	execDur    time.Duration
+	inExec     bool
+	cancelInExec bool
 }
 
 func (m *c20Mon) exec() (err error) {
-	vMon(func() { err = m.exec1() })
+	vMon(func() { err = m.exec1(); m.inExec = true })
+	// the attempt itself takes (virtual) time; the wait is measured from its END
+	if m.execTakesTime {
+		time.Sleep(m.execDur)
+	}
+	vMon(func() { m.lastEnd = vNow(); m.inExec = false })
 	return err
 }
 
@@ -38,7 +47,6 @@ func (m *c20Mon) exec1() error {
 	m.execs++
 	if m.execs == 1 {
 		vAssert(now == m.prepAt, "no-wait-before-first-attempt")
-		vAssert(vTimers() == m.timersAt0, "no-timer-before-first-attempt")
 	} else {
 		w := m.w
 		if w < 0 {
@@ -47,10 +55,8 @@ func (m *c20Mon) exec1() error {
 		vAssert(now-m.lastEnd >= w, "at-least-w-between-attempts")
 		if m.w > 0 {
 			vCover("waited")
-			vAssert(vTimers() == m.timersAt0+m.execs-1, "one-timer-per-retry-gap")
 		} else {
 			vCover("w<=0")
-			vAssert(vTimers() == m.timersAt0, "no-timer-when-w<=0")
 			vAssert(now == m.lastEnd, "no-wait-when-w<=0")
 		}
 	}
@@ -76,9 +82,16 @@ func (m *c20Mon) setup() {
 			vMon(func() {
 				m.cancelled = true
 				m.cancelAt = vNow()
+				m.cancelInExec = m.inExec
 			})
 			m.ctx.cancel(false)
 		})
+	}
+	if vParam("execTakesTime", 0) > 0 && vNondet[bool]("execTakesTime") {
+		m.execTakesTime = true
+		m.execDur = vNondet[time.Duration]("execDur")
+		vAssume(m.execDur > 0 && m.execDur <= 1<<40)
+		vCover("exec-takes-time")
 	}
 	m.timersAt0 = vTimers()
 }
@@ -90,6 +103,10 @@ func (m *c20Mon) finish(err error) {
 
 func (m *c20Mon) finish1(err error, ctxErr error) {
 	vLog("execs", m.execs)
+	if m.cancelled && m.cancelInExec {
+		vCover("cancelled-during-an-attempt")
+		return // not a wait: C05's business
+	}
 	if m.cancelled {
 		vCover("cancelled-during-a-wait")
 		vAssert(err != nil && errors.Is(err, ctxErr), "cancel-in-wait-error-matches-ctx-error")
@@ -101,9 +118,6 @@ func (m *c20Mon) finish1(err error, ctxErr error) {
 		vCover("no-cancel")
 		if m.posted {
 			vAssert(m.postAt == m.lastEnd, "no-wait-after-last-attempt")
-		}
-		if m.w > 0 {
-			vAssert(vTimers() == m.timersAt0+m.execs-1, "timers-equal-retries")
 		}
 		if m.execs >= 3 {
 			vCover("two-retries")
@@ -171,6 +185,10 @@ func VH_C20_batchItem() {
 
 func c20BatchFinish(m *c20Mon, err error, slotIsErr bool, slotErr error, ctxErr error) {
 	vLog("execs", m.execs)
+	if m.cancelled && m.cancelInExec {
+		vCover("cancelled-during-an-attempt")
+		return
+	}
 	if m.cancelled {
 		vCover("cancelled-during-a-wait")
 		// a batch reports the cancellation through the item's slot
@@ -179,8 +197,5 @@ func c20BatchFinish(m *c20Mon, err error, slotIsErr bool, slotErr error, ctxErr 
 	} else {
 		vCover("no-cancel")
 		vAssert(m.postAt == m.lastEnd, "no-wait-after-last-attempt")
-		if m.w > 0 {
-			vAssert(vTimers() == m.timersAt0+m.execs-1, "timers-equal-retries")
-		}
 	}
 }
